@@ -181,14 +181,14 @@ def _inductive(v, prop):
 
 
 def check_C03(tier):
-    v = run_level_check("C03", tier, ["core_det", "core_noisy", "cons"],
+    v = run_level_check("C03", tier, ["core_det", "core_noisy", "cons", "optvar"],
                         design_cfgs=("BadsRun.cfg", "BadsRun_noisy.cfg"))
     _inductive(v, "C03")
     return v
 
 
 def check_C04(tier):
-    return run_level_check("C04", tier, ["core_det", "cons"], design_cfgs=("BadsRun.cfg",),
+    return run_level_check("C04", tier, ["core_det", "cons", "optvar"], design_cfgs=("BadsRun.cfg",),
                            scenario_filter=lambda sc: sc["noise"]["mode"] == "det")
 
 
@@ -198,19 +198,19 @@ def check_C05(tier):
 
 
 def check_C13(tier):
-    v = run_level_check("C13", tier, ["core_det", "core_noisy"],
+    v = run_level_check("C13", tier, ["core_det", "core_noisy", "optvar"],
                         design_cfgs=("BadsRun.cfg", "BadsRun_noisy.cfg"))
     _inductive(v, "C13")
     return v
 
 
 def check_C19run(tier):
-    return run_level_check("C19", tier, ["core_det", "core_noisy", "cons"],
+    return run_level_check("C19", tier, ["core_det", "core_noisy", "cons", "optvar"],
                            design_cfgs=("BadsRun.cfg",))
 
 
 def check_C09(tier):
-    return run_level_check("C09", tier, ["core_det", "core_noisy", "cons", "steer"], level="exploration",
+    return run_level_check("C09", tier, ["core_det", "core_noisy", "cons", "steer", "optvar"], level="exploration",
                            design_cfgs=("BadsRun.cfg",))
 
 
@@ -285,7 +285,7 @@ def check_C10(tier):
 
 
 def check_C14run(tier):
-    return run_level_check("C14", tier, ["core_det", "core_noisy"], design_cfgs=())
+    return run_level_check("C14", tier, ["core_det", "core_noisy", "optvar"], design_cfgs=())
 
 
 def check_C15(tier):
@@ -332,11 +332,12 @@ def check_C12(tier):
 # ---------------------------------------------------------------------------
 # C16: GP-fit fault enumeration (patterns generated by TLC from GPTrain.tla)
 # ---------------------------------------------------------------------------
-def _gptrain_cfg(nfit, maxfaults, hasnoise, shrink=True):
+def _gptrain_cfg(nfit, maxfaults, hasnoise, shrink=True, n0=5, guard=True):
     return ("SPECIFICATION Spec\nCONSTANTS\n  NFit = %d\n  MaxFaults = %d\n  NRefit = 3\n  NTryFit = 10\n"
-            "  RemoveAfter = 1\n  N0 = 6\n  HasNoise = %s\n  ShrinkNoise = %s\n"
-            "INVARIANT FitArgsConsistent\nINVARIANT NeverAborts\nPROPERTY RunCompletes\n"
-            % (nfit, maxfaults, "TRUE" if hasnoise else "FALSE", "TRUE" if shrink else "FALSE"))
+            "  RemoveAfter = 1\n  N0 = %d\n  HasNoise = %s\n  ShrinkNoise = %s\n  GuardSingle = %s\n"
+            "INVARIANT FitArgsConsistent\nINVARIANT NeverAborts\nINVARIANT FitSetNonEmpty\nPROPERTY RunCompletes\n"
+            % (nfit, maxfaults, n0, "TRUE" if hasnoise else "FALSE", "TRUE" if shrink else "FALSE",
+               "TRUE" if guard else "FALSE"))
 
 
 def check_C16(tier):
@@ -387,6 +388,16 @@ def check_C16(tier):
                         "options": {"max_fun_evals": 60, "noise_final_samples": 2}, "seed": 21,
                         "faults": {"fit": list(p)}, "tags": ["fitfault", mode, f"n{len(p)}",
                                                             "consecutive" if consecutive(p) else "scattered"]})
+    # second base problem (deterministic): a curved valley whose first local refit sees a 5-point set with
+    # a different closest-pair / worst-point structure (the drop sequence 5 -> 3 -> 1 instead of 5 -> 3 -> 2 -> 1);
+    # consecutive runs only -- they are what shrinks one training set repeatedly
+    box_r = {"lb": [-5, -5], "ub": [5, 5], "plb": [-2, -2], "pub": [2, 2], "x0": [-1.0, 1.2]}
+    for p in patterns_used:
+        if p and (consecutive(p) or len(p) == 1) and (tier == "thorough" or len(p) >= 3 or p[0] <= 2):
+            scs.append({"id": "g_rosen_" + "_".join(map(str, p)), "D": 2, "geom": box_r, "target": {"family": "rosen"},
+                        "noise": {"mode": "det"}, "cons": None, "options": {"max_fun_evals": 45}, "seed": 11,
+                        "faults": {"fit": list(p)}, "tags": ["fitfault", "det", "rosen", f"n{len(p)}",
+                                                            "consecutive" if consecutive(p) else "single"]})
     injected = {}
 
     def post(v, results):
@@ -408,6 +419,7 @@ def check_C16(tier):
                         extra_panels=[("c16faults", scs)], post=post,
                         clause_prefixes=["C16.", "C09.", "C01.", "C03.", "C04.", "C05."])
     v.coverage["states"] += v0_states
+    v.coverage["gptrain_model_constants"] = "NFit=8 MaxFaults=4 NRefit=3 NTryFit=10 RemoveAfter=1 N0=5 GuardSingle=TRUE"
     v.coverage["rule"] = ("fault patterns over the first 8 GP.fit invocations enumerated by TLC from GPTrain.tla "
                           "(singles, runs of 2-4, scattered pairs/triples; thorough: all patterns with <= 4 faults) "
                           "x {deterministic, declared noise, specified noise}; GP.fit raises LinAlgError at exactly those invocations")
